@@ -490,6 +490,7 @@ TABLE_DOCS = [
     '#table(columns: (2,), [a], [b])\n', '#table(columns: 2, align: (left), [a], [b], [c])\n',
 ]
 BLOCK_DOCS = [
+    '_#(true)_ x\n', '*#(1)* x\n', '_a #(none)_\n', '_#(1)_\n', '*#(auto)*b\n',
     '#let x = [ #{/* c */ a}]\n', '#let x = [ #{a; b}]\n', '#let x = [#{a; b} ]\n', '#f[ #g(a,\n b)]\n', '#[ a\nb ]\n', '#[\n a ]\n', '#[ a\n]\n', '#let x = { [ a ] }\n', '#f(a)[ b ][c ]\n',
     '#let x = [ #f(// c\n a)]\n', '#[ - a\n  b]\n', 'text #box[- a\n  b]\n', '#{ /* c */ }\n', '#{/* c */ a }\n', '#( /* c */ a)\n', '#f( /* c */\n)\n', '#let f( /* c */ ) = 1\n',
     '#if a { b } else [ c ]\n', '#show: it => [ #it ]\n', '#a.b[ c ].d\n', '= H #[ a ]\n', '- a #[ b\n  c ]\n', '#f(x => [ y ])\n', '#(a: [ b ], c: { d })\n',
@@ -866,6 +867,16 @@ def confirm(S, info, prop='C03'):
     return None
 
 
+# documents that show a defect recorded as an open known finding: the key carries the document's id, so that nothing else is suppressed
+KNOWN_DEFECT_DOCS = {
+    '* - a\nb *\n': 'strong-body-that-starts-with-a-dash',
+    'text #box[- a\n           b]\n': 'list-item-in-a-content-block-on-a-text-line',
+    '#let x = [ #f(aaaaaaaaaaaa, bbbbbbbbbbbbbb, cccccccccccccc, ddddddddddddd, eeeeeeeeeeeeee, fffffffffff)]\n': 'content-block-with-a-left-blank-whose-call-breaks',
+    'a #[ /* c */] b\n': 'content-block-that-holds-only-a-comment',
+    '==/* c */\n': 'heading-marker-directly-followed-by-a-comment',
+}
+
+
 def site_of(src):
     """role of a document for the keys of known findings: its first construct"""
     s = src.lstrip()
@@ -880,7 +891,8 @@ def report(S, prop, found):
     groups = {}
     for lab, info in found:
         if lab.startswith(prop + ':') or (prop in ('C01', 'C02', 'C09', 'C06', 'C08') and lab.startswith('C04:')):
-            groups.setdefault((lab, site_of(info.get('seed', ''))), []).append(info)
+            kid = KNOWN_DEFECT_DOCS.get(info.get('seed', ''))
+            groups.setdefault((lab, 'document:' + kid if kid else site_of(info.get('seed', ''))), []).append(info)
     for (lab, site), infos in sorted(groups.items()):
         hit = None
         for info in infos[:8]:
